@@ -130,7 +130,7 @@ def run(chk):
         import p_shapes
         shapes, seen = [], set()
         for name, cfg, tiers in p_shapes.EXHAUSTIVE:
-            if chk.tier not in tiers or (quick and name in ("focus_ann", "graph3")):
+            if chk.tier not in tiers or (quick and name in ("graph3",)):
                 continue
             r2 = chk.tlc("ProtoShapesMC.tla", cfg, "shapes_" + name, workers=W, timeout=3000)
             for c in r2.cases:
